@@ -147,7 +147,7 @@ func faultClass(desc string) string {
 	if strings.HasPrefix(desc, "plygrammar/") {
 		return "ply-grammar-file"
 	}
-	for _, p := range []string{"truncate", "transient-read-error", "read-error", "token", "byte", "count", "valid"} {
+	for _, p := range []string{"truncate", "transient-read-error", "read-error", "stalled-source", "token", "byte", "count", "valid"} {
 		if strings.HasPrefix(rest, p) {
 			return p
 		}
@@ -252,6 +252,14 @@ func main() {
 					if res.NoProgress {
 						report(c, tc, "non-progress", fmt.Sprintf("reader returned more than len(input)+16 = %d records without an error", len(tc.data)+16), "")
 					}
+					if tc.mode == modeStalledAt {
+						c.Max("stalled_source.max_fruitless_read_calls", float64(res.Stalled))
+						// a decoder may retry a temporary error a few times (each of up to 64
+						// calls-after-error may do so again), but not wait for a source that never recovers
+						if res.Stalled > 1000*(1+res.Retries) {
+							report(c, tc, "gives-up-on-a-stalled-source", fmt.Sprintf("kept calling Read %d times on a source that answered every call with a temporary error and no data", res.Stalled), "")
+						}
+					}
 					limit := uint64(256*len(tc.data) + 2<<20)
 					if len(tc.data) > 1<<20 {
 						// for megabyte-sized inputs the fixed costs no longer matter: 16x the input
@@ -290,6 +298,7 @@ func main() {
 	r.Require("class.token", 1000)
 	r.Require("class.read-error", 500)
 	r.Require("class.transient-read-error", 500)
+	r.Require("class.stalled-source", 200)
 	r.Require("class.ply-grammar-file", 1000)
 	for _, n := range decoderNames {
 		r.Require("cases."+n, 200)
